@@ -154,6 +154,17 @@ func genC13() {
 	if s, ok := c13CompareLit(ma, acc+":mutateAccounts", "ue.HomeDir"); ok {
 		g.def("no_home", "string", coqStr(s), "homeless marker compared with ue.HomeDir")
 	}
+	// fix 82f3aa3: the home path handed to Stat/Dir/Mkdir/Chown is filepath.Clean(ue.HomeDir)
+	th := c13FindDefine(ma, "targetHomedir")
+	if th == nil {
+		fail("%s: mutateAccounts has no targetHomedir := ...", acc)
+	} else {
+		txt := exprText(th)
+		if txt != "filepath.Clean(ue.HomeDir)" && txt != "ue.HomeDir" {
+			fail("%s: targetHomedir is neither ue.HomeDir nor filepath.Clean(ue.HomeDir): %s", acc, txt)
+		}
+		g.def("home_is_cleaned", "bool", fmt.Sprint(txt == "filepath.Clean(ue.HomeDir)"), "targetHomedir := "+txt+" at "+g.pos(th))
+	}
 	num("home_parent_perm", c13CallArg(ma, acc+":mutateAccounts", "MkdirAll", 1), "mode of missing parents of a home")
 	num("home_perm", c13CallArg(ma, acc+":mutateAccounts", "Mkdir", 1), "mode of a created home")
 
